@@ -308,7 +308,7 @@ def exec_cases(binp, case_lines, workdir, nshards=NCPU, timeout=900, env=None):
 
 
 # --------------------------------------------------------------------------- Validate
-def validate(trace_spec, base_cfg, consts, event_lines, workdir, nshards=NCPU, timeout=3600):
+def validate(trace_spec, base_cfg, consts, event_lines, workdir, nshards=NCPU, timeout=1800):
     """Stateless validation: TLC accepts an event iff its Level-A contract
     holds.  Returns the set of rejected indices into event_lines."""
     ensure(workdir)
@@ -319,28 +319,56 @@ def validate(trace_spec, base_cfg, consts, event_lines, workdir, nshards=NCPU, t
     shards = [list(range(i, n, nshards)) for i in range(nshards)]
     cfg = cfg_text(base_cfg, consts)
 
-    def run(si):
-        idxs = shards[si]
-        tp = os.path.join(workdir, "vtrace.%d.ndjson" % si)
+    unvalidated = set()
+    budget = {"runs": 0}
+
+    def tlc_once(si, idxs, tag):
+        """One TLC run over the events idxs.  Returns (rejected idxs, aborted_by_overflow)."""
+        tp = os.path.join(workdir, "vtrace.%d.%s.ndjson" % (si, tag))
         with open(tp, "w") as f:
             for i in idxs:
                 f.write(event_lines[i] + "\n")
         r = run_tlc(trace_spec, cfg, os.path.join(workdir, "v%d" % si), env={"TRACE": tp}, workers=2, xmx="3g",
                     timeout=timeout, extra=["-continue"])
-        if not r["completed"] or r["generated"] != len(idxs):
-            raise MachineryFailure("trace validation did not complete (shard %d, rc=%s): %s" %
-                                   (si, r["rc"], "\n".join(r["out"].splitlines()[-15:])))
         os.remove(tp)
-        other = [e for e in r["errors"] if "Invariant Explained is violated" not in e]
-        if other:
-            raise MachineryFailure("TLC error during validation: %s" % other[:3])
-        return {idxs[k - 1] for k in r["init_rejects"]}
+        rej = {idxs[k - 1] for k in r["init_rejects"] if 1 <= k <= len(idxs)}
+        if r["completed"] and r["generated"] == len(idxs):
+            other = [e for e in r["errors"] if "Invariant Explained is violated" not in e]
+            if other:
+                raise MachineryFailure("TLC error during validation: %s" % other[:3])
+            return rej, False
+        if "Overflow when computing" in r["out"]:
+            # TLC's 32-bit integers overflowed while a contract was being evaluated on some event of
+            # this run: TLC aborts without saying on which one.  The rejections printed so far stand.
+            return rej, True
+        raise MachineryFailure("trace validation did not complete (shard %d, rc=%s): %s" %
+                               (si, r["rc"], "\n".join(r["out"].splitlines()[-15:])))
+
+    def solve(si, idxs, tag):
+        """Validates idxs; isolates events on which TLC overflows by bisection (they are reported as
+        unvalidated, neither accepted nor rejected)."""
+        rej, aborted = tlc_once(si, idxs, tag)
+        if not aborted:
+            return rej
+        rest = [i for i in idxs if i not in rej]
+        budget["runs"] += 1
+        if len(rest) == 1 or budget["runs"] > 60:
+            unvalidated.update(rest)
+            return rej
+        h = len(rest) // 2
+        return rej | solve(si, rest[:h], tag + "a") | solve(si, rest[h:], tag + "b")
+
+    def run(si):
+        return solve(si, shards[si], "r")
 
     rejected = set()
     with cf.ThreadPoolExecutor(min(nshards, NCPU)) as ex:
         for s in ex.map(run, range(nshards)):
             rejected |= s
-    return rejected, n
+    validate.last_unvalidated = sorted(unvalidated)
+    if len(unvalidated) > max(20, n // 10):
+        raise MachineryFailure("TLC integer overflow on %d of %d events: the contracts could not be evaluated" % (len(unvalidated), n))
+    return rejected, n - len(unvalidated)
 
 
 # --------------------------------------------------------------------------- known findings
